@@ -189,7 +189,7 @@ def register_evaluate_node(R):
                        ensures=[('evaluate_node', ens)],
                        raises=[Raises('UnsafeError', name='C07.UnsafeError'), Raises('EvalError'),
                                Raises('ValueError'), Raises('KeyError'), Raises('TypeError')],
-                       result=P.val('result', 'any'), props=('C10', 'C07'),
+                       result=P.val('result', 'any'), props=('C10', 'C07', 'C09'),
                        loops={0: Loop(inv, mod_locals=['enode', 'p'], mod_fields=[],
                                       mod_where=lambda c, L: [(f, (lambda r, c=c, L=L: z3.Or(c.eng.isinstance_term(L.entry_heap.cls(r), 'PartialChild'), r < -1000000))) for f in CACHE])},
                        opts={'gates': {'on-evaluate': gate_once}, 'no_search': True, 'callee': nm == 'with-path', 'replay_direct': replay_direct, 'shards': 6},
@@ -342,6 +342,75 @@ def register_evalnode(R):
                    note='execution sites of !eval / f-string nodes: gated by safety; the file name handed to compile() is a string; the namespace the code runs in carries the context of this call'))
 
 
+def register_globals_wrapper(R):
+    """GlobalsWrapper.__getattr__ (C12): how a name that the user code does not define itself is resolved - a symbol or earlier
+    definition in the namespace first, then the top-level config entry of that name (evaluated through the partial config, in
+    require-all-safe mode), then a builtin, else NameError."""
+    EV = 'awesomeyaml/nodes/eval.py::'
+    EntryValue = z3.Function('ConfigEntryValue', sym.I, Val, Val)     # ghost: what partial_config[name] evaluates to
+    R.add(Contract(E + 'PartialChild.__getitem__', [P.node('self', 'PartialChild', exact=True), P.val('key', 'any')], name='abstract', assume_only=True,
+                   modifies=lambda c: [(f, 'all') for f in ('$mlen', '$mkeyat', '$mpos', '$mval', '$llen', '$litem')], effects=[('read-config-entry',)],
+                   ensures=[('value', lambda c: c.rt == EntryValue(c.ref('self'), c['key']))], result=P.val('result', 'any'), raises=[Raises('EvalError'), Raises('UnsafeError'), Raises('KeyError')],
+                   props=('C12',), opts={'callee': False}, note='entry of the partially evaluated config: evaluates the node on demand (C10)'))
+    R.add(Contract(E + 'EvalContext.require_all_safe', [P.node('self', 'EvalContext', exact=True), P.node('node', 'ConfigNode'), P.path('path')], name='mode-on', assume_only=True,
+                   props=('C12',), opts={'callee': False, 'cm_opaque': True}, note='context manager (proved for C07): the mode is on inside the block'))
+
+    def setup(it, fr, sc):
+        it.run.assume(it.heap.get('$global:__builtins__', z3.IntVal(0)) == it.spec_args['$builtins'].t)
+
+    def parts(c):
+        s = c.ref('self')
+        h = c.pre
+        g = h.m(r_of(h.get('gbls', s)))
+        e = r_of(h.get('ecfg', s))
+        cf = S.children(h, r_of(h.get('_cfgobj', e)))
+        b = h.m(c.ref('$builtins'))
+        return g, e, cf, b
+
+    def req(c):
+        s = c.ref('self')
+        h = c.pre
+        e = r_of(h.get('ecfg', s))
+        return [('namespace-is-a-dict', z3.And(is_ref(h.get('gbls', s)), r_of(h.get('gbls', s)) > 0, h.cls(r_of(h.get('gbls', s))) == c.cid('dict'))),
+                ('partial-config', z3.And(is_ref(h.get('ecfg', s)), e > 0, h.cls(e) == c.cid('PartialChild'), is_ref(h.get('_cfgobj', e)), r_of(h.get('_cfgobj', e)) > 0,
+                                          c.eng.isinstance_term(h.cls(r_of(h.get('_cfgobj', e))), 'ConfigDict'),
+                                          h.m(r_of(h.get('_cfgobj', e))).eq(S.children(h, r_of(h.get('_cfgobj', e)))))),
+                ('config-root-is-a-consistent-mapping-node', _mapping_node_ok(c, h, r_of(h.get('_cfgobj', e)))),
+                ('context', z3.And(is_ref(h.get('ctx', s)), r_of(h.get('ctx', s)) > 0, h.cls(r_of(h.get('ctx', s))) == c.cid('EvalContext'))),
+                ('node', z3.And(is_ref(h.get('node', s)), r_of(h.get('node', s)) > 0, c.eng.isinstance_term(h.cls(r_of(h.get('node', s))), 'ConfigNode')))]
+
+    def ens(c):
+        g, e, cf, b = parts(c)
+        n = c['name']
+        return [('C12.a-definition-or-symbol-in-the-namespace-wins', z3.Implies(g.has(n), c.rt == g.get(n))),
+                ('C12.then-the-top-level-config-entry-of-that-name', z3.Implies(z3.And(z3.Not(g.has(n)), cf.has(n)), c.rt == EntryValue(e, n))),
+                ('C12.then-a-builtin', z3.Implies(z3.And(z3.Not(g.has(n)), z3.Not(cf.has(n))), z3.And(b.has(n), c.rt == b.get(n))))]
+
+    def gate_entry(sc, kw):
+        # the config entry is read only when the namespace does not define the name, and for exactly that name
+        g, e, cf, b = parts(sc)
+        return z3.And(z3.Not(g.has(sc['name'])), cf.has(sc['name']), kw['args'][0].t == sc.pre.get('ecfg', sc.ref('self')), kw['args'][1].t == sc['name'])
+
+    R.add(Contract(EV + 'GlobalsWrapper.__getattr__', [P.node('self', 'GlobalsWrapper', exact=True), P.val('name', 'str'), P.map('$builtins')], requires=req,
+                   modifies=lambda c: [(f, 'all') for f in ('$mlen', '$mkeyat', '$mpos', '$mval', '$llen', '$litem', '_require_all_safe')],
+                   ensures=[('resolve', ens)],
+                   raises=[Raises('NameError', exact=True, name='C12.NameError-iff-defined-nowhere',
+                                  when=lambda c: z3.And(*[z3.Not(m.has(c['name'])) for m in (parts(c)[0], parts(c)[2], parts(c)[3])])),
+                           Raises('EvalError'), Raises('UnsafeError'), Raises('KeyError')],
+                   result=P.val('result', 'any'), props=('C12',),
+                   opts={'setup': setup, 'no_search': True, 'no_frame': True, 'use': {E + 'PartialChild.__getitem__': 'abstract'},
+                         'gates': {'read-config-entry': gate_entry}, 'gates_on_raise': True, 'skip_kinds': ('safety',)},
+                   note='name resolution of user code; the builtins table is modelled as a dict object'))
+
+
+def _mapping_node_ok(c, h, d):
+    from .c_containers import inv_dict, chref
+    mm = S.children(h, d)
+    kk = z3.Const('!gwk', Val)
+    return z3.And(mm.len >= 0, S.FA([kk], z3.And(z3.Select(mm.pos, kk) >= -1, z3.Select(mm.pos, kk) < mm.len), patterns=[z3.Select(mm.pos, kk)]),
+                  is_ref(h.get('_children', d)), chref(h, d) > 0, h.cls(chref(h, d)) == c.cid('dict'), inv_dict(c, h, d))
+
+
 def _fresh_list(it):
     r = it.run.alloc('list')
     it.heap.put_l(r, ListT.fresh(f'split!{it.run.nfresh}'))
@@ -364,3 +433,4 @@ def _reg_all(R):
     register_xref(R)
     register_context_init(R)
     register_evalnode(R)
+    register_globals_wrapper(R)
